@@ -76,27 +76,32 @@ func fsmApplyGuard(c *Ctx, rule string) (apply, applyAdd *ssa.Function) {
 	p := c.P
 	apply = p.MustMethod(pkgConsensus, "RaftNode", "Apply")
 	should := p.MustMethod(pkgConsensus, "fsmState", "shouldApply")
-	// applyAdd by role: the callee of Apply (a RaftNode method) that calls Store.Mutate
-	eachInstr(apply, func(in ssa.Instruction) {
-		cc := callCommon(in)
-		if cc == nil {
-			return
+	addBulk := p.MustMethod(pkgBalloon, "Balloon", "AddBulk")
+	// Apply and the helpers it delegates to (decoding/dispatch may be extracted) are one region.
+	rg := p.RegionOf(apply, 3)
+	isMutate := func(k *ssa.CallCommon) bool { return k.IsInvoke() && k.Method.Name() == "Mutate" }
+	// applyAdd by role: the deepest function of the region (other than Apply) whose own helpers
+	// contain both the balloon insertion and the Store.Mutate write
+	best := -1
+	for _, f := range rg.Funcs() {
+		if f == apply || f == should || f.Parent() != nil {
+			continue
 		}
-		f := cc.StaticCallee()
-		if f == nil || f.Pkg != apply.Pkg || f == should {
-			return
+		sub := p.RegionOf(f, 2)
+		if len(sub.Calls(isMutate)) == 0 || len(sub.Calls(func(k *ssa.CallCommon) bool { return k.StaticCallee() == addBulk })) == 0 {
+			continue
 		}
-		mut := callsIn(f, func(k *ssa.CallCommon) bool { return k.IsInvoke() && k.Method.Name() == "Mutate" })
-		if len(mut) > 0 {
-			applyAdd = f
+		if d := len(rg.sites[f][0].chain); d > best {
+			best, applyAdd = d, f
 		}
-	})
+	}
 	if applyAdd == nil {
 		c.Fail(rule, funcName(apply)+":apply-call", apply.Pos(), "Apply no longer hands the decoded entry to a function that persists it through Store.Mutate")
 		return
 	}
-	for _, call := range callsIn(apply, func(k *ssa.CallCommon) bool { return k.StaticCallee() == applyAdd }) {
-		cs := p.CondsAt(call.Block())
+	for _, ri := range rg.Calls(func(k *ssa.CallCommon) bool { return k.StaticCallee() == applyAdd }) {
+		call := ri.in
+		cs := rg.Conds(ri)
 		var guard *Term
 		for _, k := range cs {
 			if k.Pol && k.Atom.IsCallTo(should) {
@@ -104,7 +109,7 @@ func fsmApplyGuard(c *Ctx, rule string) (apply, applyAdd *ssa.Function) {
 			}
 		}
 		cc := callCommon(call)
-		st := p.TermOf(cc.Args[len(cc.Args)-1])
+		st := rg.Term(ri.site, cc.Args[len(cc.Args)-1])
 		okGuard := guard != nil && guard.Args[0].IsField("state", isParam(apply, 0)) && guard.Args[1].String() == st.String()
 		c.Check(okGuard, rule, funcName(apply)+":replay-guard", call.Pos(), "applyAdd only when n.state.shouldApply(newState)", "the entry is applied without the dominating test n.state.shouldApply(<the state being applied>) (conds: "+strings.Join(condStrings(cs), " ∧ ")+")")
 		// the new state
@@ -113,12 +118,12 @@ func fsmApplyGuard(c *Ctx, rule string) (apply, applyAdd *ssa.Function) {
 			idx, ver := "?", "?"
 			okI, okV := false, false
 			if len(byField["Index"]) == 1 {
-				t := p.TermOf(byField["Index"][0])
+				t := rg.Term(ri.site, byField["Index"][0])
 				idx = t.String()
 				okI = t.IsField("Index", isParam(apply, 1))
 			}
 			if len(byField["BalloonVersion"]) == 1 {
-				t := p.TermOf(byField["BalloonVersion"][0])
+				t := rg.Term(ri.site, byField["BalloonVersion"][0])
 				ver = t.String()
 				// (Version() + len(digests)) - 1
 				if t.Op == "binop" && t.Name == "-" && t.Args[1].Name == "1" && t.Args[0].Op == "binop" && t.Args[0].Name == "+" {
@@ -127,7 +132,7 @@ func fsmApplyGuard(c *Ctx, rule string) (apply, applyAdd *ssa.Function) {
 					isLen := func(x *Term) bool { return x.Op == "builtin" && x.Name == "len" }
 					okV = isVer(a) && isLen(b) || isVer(b) && isLen(a)
 					// the digests handed on are the ones counted
-					dig := p.TermOf(cc.Args[1])
+					dig := rg.Term(ri.site, cc.Args[1])
 					for _, x := range []*Term{a, b} {
 						if isLen(x) && x.Args[0].String() != dig.String() {
 							okV = false
@@ -152,10 +157,12 @@ func fsmApplyAdd(c *Ctx, rule string, applyAdd *ssa.Function) {
 	}
 	name := funcName(applyAdd)
 	addBulk := p.MustMethod(pkgBalloon, "Balloon", "AddBulk")
-	muts := callsIn(applyAdd, func(k *ssa.CallCommon) bool { return k.IsInvoke() && k.Method.Name() == "Mutate" })
+	// applyAdd with the helpers it builds its batch with
+	rg := p.RegionOf(applyAdd, 2)
+	muts := rg.Calls(func(k *ssa.CallCommon) bool { return k.IsInvoke() && k.Method.Name() == "Mutate" })
 	inLoop := false
 	for _, m := range muts {
-		if inCycle(m.Block()) {
+		if rg.InCycle(m) {
 			inLoop = true
 		}
 	}
@@ -163,8 +170,8 @@ func fsmApplyAdd(c *Ctx, rule string, applyAdd *ssa.Function) {
 		c.Fail(rule, name+":one-batch", applyAdd.Pos(), fmt.Sprintf("%d store writes per applied entry (in a loop: %v); tree mutations and the applied-index marker must land in exactly one atomic batch, or a crash between the writes re-applies or loses the entry", len(muts), inLoop))
 		return
 	}
-	mcall := callCommon(muts[0])
-	mt := p.TermOf(mcall.Args[0])
+	mcall := callCommon(muts[0].in)
+	mt := rg.Term(muts[0].site, mcall.Args[0])
 	hasTree := mt.Has(func(t *Term) bool { return t.Op == "extract" && t.Idx == 1 && t.Args[0].IsCallTo(addBulk) })
 	stateI := applyAdd.Signature.Params().Len() // index of the state param (receiver is 0)
 	hasState := mt.Has(func(t *Term) bool {
@@ -176,17 +183,17 @@ func fsmApplyAdd(c *Ctx, rule string, applyAdd *ssa.Function) {
 				return x.Op == "call" && x.Fn != nil && x.Fn.Name() == "encode" && x.Args[0].IsParam(applyAdd, stateI)
 			})
 	})
-	c.Check(hasTree && hasState, rule, name+":one-batch", muts[0].Pos(), "single Mutate of (tree mutations + FSM state marker)", fmt.Sprintf("the batch written per entry contains tree mutations=%v, applied-index marker (FSMStateTable/FSMStateTableKey ← encode(state))=%v: %s", hasTree, hasState, mt))
+	c.Check(hasTree && hasState, rule, name+":one-batch", muts[0].in.Pos(), "single Mutate of (tree mutations + FSM state marker)", fmt.Sprintf("the batch written per entry contains tree mutations=%v, applied-index marker (FSMStateTable/FSMStateTableKey ← encode(state))=%v: %s", hasTree, hasState, mt))
 	// metadata
-	md := p.TermOf(mcall.Args[1])
+	md := rg.Term(muts[0].site, mcall.Args[1])
 	okMD := false
 	var prev, nw string
 	md.Has(func(t *Term) bool {
 		if t.Op == "call" && t.Fn != nil && t.Fn.Name() == "encode" && len(t.Args) == 1 {
 			if al, ok := t.Args[0].V.(*ssa.Alloc); ok && namedIs(deref(al.Type()), pkgConsensus, "VersionMetadata") {
-				_, bf := p.storesTo(al)
+				bf := p.AllocFields(t.Args[0])
 				if len(bf["PreviousVersion"]) == 1 && len(bf["NewVersion"]) == 1 {
-					pt, nt := p.TermOf(bf["PreviousVersion"][0]), p.TermOf(bf["NewVersion"][0])
+					pt, nt := bf["PreviousVersion"][0], bf["NewVersion"][0]
 					prev, nw = pt.String(), nt.String()
 					okMD = pt.IsField("BalloonVersion", func(b *Term) bool { return b.IsField("state", isParam(applyAdd, 0)) }) && nt.IsField("BalloonVersion", isParam(applyAdd, stateI))
 				}
@@ -194,25 +201,27 @@ func fsmApplyAdd(c *Ctx, rule string, applyAdd *ssa.Function) {
 		}
 		return false
 	})
-	c.Check(okMD, rule, name+":metadata", muts[0].Pos(), "metadata = {Previous: n.state.BalloonVersion, New: state.BalloonVersion}", "version metadata attached to the batch is {Previous: "+prev+", New: "+nw+"}; followers validate transfers against {persisted version before, version after}")
+	c.Check(okMD, rule, name+":metadata", muts[0].in.Pos(), "metadata = {Previous: n.state.BalloonVersion, New: state.BalloonVersion}", "version metadata attached to the batch is {Previous: "+prev+", New: "+nw+"}; followers validate transfers against {persisted version before, version after}")
 	// state published after the write only
-	var pub []*ssa.Store
-	eachInstr(applyAdd, func(in ssa.Instruction) {
+	var pub []regionInstr
+	rg.Instrs(func(site regionSite, in ssa.Instruction) {
 		if st, ok := in.(*ssa.Store); ok {
-			if fa, ok := st.Addr.(*ssa.FieldAddr); ok && structFieldName(deref(fa.X.Type()), fa.Field) == "state" && p.TermOf(fa.X).IsParam(applyAdd, 0) {
-				pub = append(pub, st)
+			if fa, ok := st.Addr.(*ssa.FieldAddr); ok && structFieldName(deref(fa.X.Type()), fa.Field) == "state" && rg.Term(site, fa.X).IsParam(applyAdd, 0) {
+				pub = append(pub, regionInstr{site, in})
 			}
 		}
 	})
 	okPub := len(pub) == 1
 	for _, st := range pub {
-		if !instrBefore(muts[0], st) || !p.TermOf(st.Val).IsParam(applyAdd, stateI) {
+		if !rg.Before(muts[0], st) || !rg.Term(st.site, st.in.(*ssa.Store).Val).IsParam(applyAdd, stateI) {
 			okPub = false
 		}
 	}
 	c.Check(okPub, rule, name+":publish-after-write", applyAdd.Pos(), "n.state = state after the successful write", "the in-memory FSM state is not advanced exactly once, after the store write, to the state that was persisted")
-	// failures abort
-	failuresAbort(c, rule, applyAdd, "AddBulk", "Mutate", "encode")
+	// failures abort (in applyAdd and in the helpers it delegates to)
+	for _, f := range rg.Funcs() {
+		failuresAbort(c, rule, f, "AddBulk", "Mutate", "encode")
+	}
 }
 
 // failuresAbort: on the error edge of each listed callee the function must not return normally.
@@ -265,9 +274,25 @@ func fsmValidate(c *Ctx, rule string) {
 	fs := p.MustMethod(pkgConsensus, "RaftNode", "FetchSnapshot")
 	// the validator: innermost closure of FetchSnapshot with signature func([]byte) (bool, error)
 	var val *ssa.Function
-	for _, a := range Anons(fs) {
-		if a.Signature.Params().Len() == 1 && a.Signature.Results().Len() == 2 && isBool(a.Signature.Results().At(0).Type()) && isErrorType(a.Signature.Results().At(1).Type()) {
-			val = a
+	isValidatorSig := func(a *ssa.Function) bool {
+		return a.Signature.Params().Len() == 1 && a.Signature.Results().Len() == 2 && isBool(a.Signature.Results().At(0).Type()) && isErrorType(a.Signature.Results().At(1).Type())
+	}
+	// by role: the function value handed to the store's FetchSnapshot as its batch filter (it may be
+	// built in place or by a constructor function); fall back to a closure of that shape inside FetchSnapshot
+	for _, call := range callsIn(fs, func(k *ssa.CallCommon) bool { return k.IsInvoke() && k.Method.Name() == "FetchSnapshot" }) {
+		cc := callCommon(call)
+		vt := p.X(p.TermOf(cc.Args[len(cc.Args)-1]))
+		for _, alt := range vt.Alts() {
+			if cl := alt.Resolve("closure"); cl != nil && cl.Fn != nil && isValidatorSig(cl.Fn) {
+				val = cl.Fn
+			}
+		}
+	}
+	if val == nil {
+		for _, a := range Anons(fs) {
+			if isValidatorSig(a) {
+				val = a
+			}
 		}
 	}
 	name := funcName(fs) + ":validator"
@@ -380,7 +405,8 @@ func fsmRestore(c *Ctx, rule string) {
 	p := c.P
 	restore := p.MustMethod(pkgConsensus, "RaftNode", "Restore")
 	name := funcName(restore)
-	loads := callsIn(restore, func(k *ssa.CallCommon) bool { return k.IsInvoke() && k.Method.Name() == "LoadSnapshot" })
+	rg := p.RegionOf(restore, 2) // the transfer may be delegated to a helper of the node
+	loads := rg.Calls(func(k *ssa.CallCommon) bool { return k.IsInvoke() && k.Method.Name() == "LoadSnapshot" })
 	if len(loads) != 1 {
 		c.Fail(rule, name+":load", restore.Pos(), fmt.Sprintf("%d LoadSnapshot calls in Restore", len(loads)))
 		return
@@ -437,8 +463,8 @@ func fsmRestore(c *Ctx, rule string) {
 		{refresh, "the balloon version counter is refreshed"},
 		{rebuild, "the hyper tree's in-memory batch cache is rebuilt"},
 	} {
-		esc := p.EscapesWithout(restore, reaches(need.fn), mustOpts{start: loads[0], skipErrEdges: true})
-		c.Check(esc == nil, rule, name+":refresh-"+need.fn.Name(), loads[0].Pos(), "after LoadSnapshot "+need.what, "Restore can return success after replacing the store's content without making sure that "+need.what+": the follower keeps serving and extending stale in-memory state")
+		esc := rg.EscapesAfter(loads[0], reaches(need.fn), mustOpts{skipErrEdges: true})
+		c.Check(esc == nil, rule, name+":refresh-"+need.fn.Name(), loads[0].in.Pos(), "after LoadSnapshot "+need.what, "Restore can return success after replacing the store's content without making sure that "+need.what+": the follower keeps serving and extending stale in-memory state")
 	}
 	// also on the start-up path (no transfer) state and version are loaded: entry → return must pass loadState & RefreshVersion
 	for _, need := range []*ssa.Function{loadState, refresh} {
